@@ -1,6 +1,11 @@
 #!/bin/sh
 # usage: tools_silence.sh <first-seed> <last-seed>   -- every check at quick tier for each seed; prints one line per run
 cd "$(dirname "$0")"
+# under `vp run --with-repo` build against the snapshot of /repo, so that edits made to /repo
+# while this runs cannot contaminate it (the snapshot of /verif is private to the run)
+if [ -n "$VP_RUN_REPO" ] && [ "$(pwd)" != "/verif" ]; then
+  sed -i "s#path = \"/repo\"#path = \"$VP_RUN_REPO\"#" sim/Cargo.toml
+fi
 for s in $(seq "$1" "$2"); do
   for id in C05 C16 C18; do
     out=$(VERIF_SEED=$s ./check $id --tier quick 2>&1); rc=$?
